@@ -60,16 +60,18 @@ theorem posPos_build (merge : Bool) (regs : List (Reg α)) : PosPos (build merge
     | cons g gs ih =>
       intro S h
       apply ih
-      unfold C01.addReg
-      generalize g.methods = ms
-      induction ms generalizing S with
-      | nil => exact h
-      | cons a ms ihm => exact ihm _ (h.addRoute merge S a g)
+      have : PosPos (foldReg merge S g) := by
+        unfold C01.foldReg
+        generalize g.methods = ms
+        induction ms generalizing S with
+        | nil => exact h
+        | cons a ms ihm => exact ihm _ (h.addRoute merge S a g)
+      exact this
   exact key regs _ (fun i r hr => by simp [Stacks.empty] at hr)
 
 /-! ### 404 / 405 / Allow -/
 
-theorem corr_any (m : Nat) {rs : List (Route α)} {gs : List (Reg α)} (hc : Corr m rs gs)
+theorem corr_any (m : Nat) {b : Nat} {rs : List (Route α)} {gs : List (Reg α)} (hc : CorrI m b rs gs)
     (f : Bytes → Bool → Bool) :
     (rs.any fun r => f r.raw r.use) = gs.any fun g => g.methods.contains m && f g.raw g.use := by
   induction hc with
@@ -77,9 +79,9 @@ theorem corr_any (m : Nat) {rs : List (Route α)} {gs : List (Reg α)} (hc : Cor
   | skip hm _ ih =>
     simp only [List.any_cons, contains_eq_false_of_not_mem hm, Bool.false_and, Bool.false_or]
     exact ih
-  | one h1 h2 h3 _ _ _ ih =>
+  | one h1 h2 h3 _ _ _ _ _ _ ih =>
     simp only [List.any_cons, contains_eq_true_of_mem h1, Bool.true_and, h2, h3, ih]
-  | merged h1 h2 h3 _ h5 h6 _ _ _ ih =>
+  | merged h1 h2 h3 _ h5 h6 _ _ _ _ _ _ _ ih =>
     simp only [List.any_cons, contains_eq_true_of_mem h1, Bool.true_and, h2, h3] at ih ⊢
     rw [← ih, h5, h6]
     cases f _ _ <;> simp
@@ -120,38 +122,42 @@ theorem ending_build (E : Env π α) (merge : Bool) (regs : List (Reg α)) (hwf 
 
 /-! ### the instrumented run equals the specification -/
 
-theorem dispatchS_linear (E : Env π α) (merge : Bool) (regs : List (Reg α)) (hwf : WF regs)
-    (hl : LocalR E regs) (m : Nat) (p : π) (o : Obs)
-    (h : dispatchS E (build merge regs) true (build merge regs).fuel m p = .ok o) :
-    o = linear E regs m p := by
+/-- a routing pass from the top of the table (cursor −1) with any method, path and `matched` flag —
+what `requestHandler` starts with `matched = false` and what `RestartRouting()` starts with the flag
+the request has accumulated so far -/
+theorem passS_linear (E : Env π α) (merge : Bool) (regs : List (Reg α)) (hwf : WF regs)
+    (hl : LocalR E regs) (m : Nat) (p : π) (matched : Bool) (o : Obs)
+    (h : next E (build merge regs) true (build merge regs).fuel m p 0 matched = .ok o) :
+    o = linearFrom E regs regs m p matched := by
   have hinv := InvS.build merge regs
-  have hsorted := hinv.sorted m
-  have hloc := local_build E merge regs hl m
-  have hpos : ∀ r ∈ (build merge regs).stack m, 0 < r.pos := fun r hr =>
-    posPos_build merge regs m r (mem_stack.mp hr)
-  have hall : ((build merge regs).stack m).filter (fun x => 0 < x.pos) = (build merge regs).stack m := by
-    rw [List.filter_eq_self]; intro r hr; simpa using hpos r hr
-  have hcs : Sorted (candidates E (build merge regs) m p) := by
-    rw [candidates_eq E _ m hsorted p]; exact hsorted.filter _
-  have hal : Aligned (candidates E (build merge regs) m p) 0 0 := by
-    unfold Aligned
+  have hg := InvG.build merge regs (fun g hg => (hwf g hg).nodup)
+  have hpos : ∀ i, ∀ r ∈ (build merge regs).stack i, 0 < r.pos := fun i r hr =>
+    posPos_build merge regs i r (mem_stack.mp hr)
+  have hal : AlignedK (candidates E (build merge regs) m p) 0 0 := by
+    unfold AlignedK
     rw [List.drop_zero]
     symm
     rw [List.filter_eq_self]
-    intro r hr
-    rw [candidates_eq E _ m hsorted p] at hr
-    simpa using hpos r (List.mem_filter.mp hr).1
-  have hlen : (((build merge regs).stack m).filter (fun x => 0 < x.pos)).length < (build merge regs).fuel := by
-    rw [hall]
-    have := hinv.len m
-    simp only [Stacks.stack, List.length_reverse, Stacks.fuel]
-    omega
-  unfold dispatchS at h
-  rw [next_eq_linS E _ m hsorted hloc _ 0 p 0 false hal hlen, hall] at h
-  have := linS_linear E regs m (ending E (build merge regs) m)
-    (fun p matched => ending_build E merge regs hwf hl m p matched)
-    (corr_build merge regs hwf m) hwf p false o h
-  exact this.symm
+    intro r _; simp
+  have hlin := next_imp_linM E (build merge regs) hinv.sorted hg.fs (fun i => local_build E merge regs hl i)
+    (fun i r hr => (hinv.bound i r (mem_stack.mp hr)).2) _ 0 m p 0 matched o hal h
+  have := linM_linear E (build merge regs) regs (ending E (build merge regs))
+    (fun m p matched => ending_build E merge regs hwf hl m p matched) hwf
+    (fun i => corr_build merge regs hwf i) hg.fs
+    (fun i x hx => (hinv.bound i x (mem_stack.mp hx)).1)
+    (fun i j x hx y hy => hg.mono i j x (mem_stack.mp hx) y (mem_stack.mp hy))
+    (build merge regs).fuel 0 0 m p matched o
+    (fun x _ hcon => by omega)
+    (fun i x hx _ => hpos i x hx)
+    (by simp [Stacks.fuel])
+    hlin
+  simpa using this.symm
+
+theorem dispatchS_linear (E : Env π α) (merge : Bool) (regs : List (Reg α)) (hwf : WF regs)
+    (hl : LocalR E regs) (m : Nat) (p : π) (o : Obs)
+    (h : dispatchS E (build merge regs) true (build merge regs).fuel m p = .ok o) :
+    o = linear E regs m p :=
+  passS_linear E merge regs hwf hl m p false o h
 
 /-! ### instrumentation only aborts -/
 
@@ -183,16 +189,26 @@ theorem runChain_chk (E : Env π α) (S : Stacks α) (r : Route α) (hs : List (
           | ok y => rw [ih m p cur y hr]; rw [hr] at h; exact h
         | some p2 =>
           simp only [hp] at h ⊢
-          cases hr : runChain E S true r hs m p2 (resync E S m p2 r.pos) with
-          | error e => simp [hr, Except.map] at h
-          | ok y => rw [ih m p2 _ y hr]; rw [hr] at h; exact h
+          split at h
+          · cases h
+          · cases hr : runChain E S true r hs m p2 (pathCursor E S r m p2) with
+            | error e => simp [hr, Except.map] at h
+            | ok y => rw [ih m p2 _ y hr]; rw [hr] at h; exact h
       | setMethod m2 =>
         simp only [hsc] at h ⊢
-        split at h
-        · cases h
-        · cases hr : runChain E S true r hs m2 p cur with
+        by_cases hm : (m2 == m) = true
+        · simp only [hm, ↓reduceIte] at h ⊢
+          cases hr : runChain E S true r hs m p cur with
           | error e => simp [hr, Except.map] at h
-          | ok y => rw [ih m2 p cur y hr]; rw [hr] at h; exact h
+          | ok y => rw [ih m p cur y hr]; rw [hr] at h; exact h
+        · simp only [hm, Bool.false_eq_true, ↓reduceIte] at h ⊢
+          split at h
+          · cases h
+          · split at h
+            · cases h
+            · cases hr : runChain E S true r hs m2 p (methodCursor E S r m m2 p cur) with
+              | error e => simp [hr, Except.map] at h
+              | ok y => rw [ih m2 p _ y hr]; rw [hr] at h; exact h
 
 theorem next_chk (E : Env π α) (S : Stacks α) (fuel m : Nat) (p : π) (cur : Nat) (matched : Bool) (o : Obs)
     (h : next E S true fuel m p cur matched = .ok o) : next E S false fuel m p cur matched = .ok o := by
@@ -282,11 +298,13 @@ theorem handlersNoOv_build (merge : Bool) (regs : List (Reg α)) (hno : NoOverri
       intro S h hsub
       apply ih _ _ (fun x hx => hsub x (List.mem_cons_of_mem _ hx))
       have hg := hno g (hsub g List.mem_cons_self)
-      unfold C01.addReg
-      generalize g.methods = ms
-      induction ms generalizing S with
-      | nil => exact h
-      | cons a ms ihm => exact ihm _ (h.addRoute merge S a g hg)
+      have : HandlersNoOv (foldReg merge S g) := by
+        unfold C01.foldReg
+        generalize g.methods = ms
+        induction ms generalizing S with
+        | nil => exact h
+        | cons a ms ihm => exact ihm _ (h.addRoute merge S a g hg)
+      exact this
   exact key regs _ (fun i r hr => by simp [Stacks.empty] at hr) (fun g hg => hg)
 
 theorem runChain_noOv (E : Env π α) (S : Stacks α) (chk : Bool) (r : Route α) (hs : List (Handler α)) (m : Nat)
@@ -379,11 +397,15 @@ theorem runChain_false_ok (E : Env π α) (S : Stacks α) (r : Route α) (hs : L
         obtain ⟨x, hx⟩ := ihh m p cur
         exact ⟨(h0.hid :: x.1, x.2), by simp [hx, Except.map]⟩
       | some p2 =>
-        obtain ⟨x, hx⟩ := ihh m p2 (resync E S m p2 r.pos)
+        obtain ⟨x, hx⟩ := ihh m p2 (pathCursor E S r m p2)
         exact ⟨(h0.hid :: x.1, x.2), by simp [hx, Except.map]⟩
     | setMethod m2 =>
-      obtain ⟨x, hx⟩ := ihh m2 p cur
-      exact ⟨(h0.hid :: x.1, x.2), by simp [hx, Except.map]⟩
+      simp only
+      split
+      · obtain ⟨x, hx⟩ := ihh m p cur
+        exact ⟨(h0.hid :: x.1, x.2), by simp [hx, Except.map]⟩
+      · obtain ⟨x, hx⟩ := ihh m2 p (methodCursor E S r m m2 p cur)
+        exact ⟨(h0.hid :: x.1, x.2), by simp [hx, Except.map]⟩
 
 theorem next_false_ok (E : Env π α) (S : Stacks α) :
     ∀ fuel m p cur matched, ∃ o, next E S false fuel m p cur matched = .ok o := by
